@@ -65,8 +65,11 @@ def files(rc):
     base_names = ['_', '_', 'upper']      # the two blank keep-alive variables are declarations of the file too
     if ctx == 'local-collides':
         extra_decl = ('func localStrings(x string) string {\n\tup := strings.ToUpper(x)\n\t{\n\t\tstrings := "loc"\n\t\tup += strings\n\t}\n\tfmt := len(up)\n\treturn up + string(rune(64+fmt))\n}\n')
-        extra_names = ['localStrings']
-        extra_probe = ', localStrings("ab")'
+        # a local that must be renamed (strings -> strings2) next to a local that already has the fresh name
+        extra_decl += ('\nfunc twoLocals(a string) string {\n\tstrings2 := "keep"\n\tstrings := a + "!"\n\treturn strings + strings2\n}\n'
+                       '\nfunc innerFresh(a string) string {\n\tstrings := a + "?"\n\tout := strings\n\t{\n\t\tstrings2 := "in"\n\t\tout += strings2 + strings\n\t}\n\treturn out\n}\n')
+        extra_names = ['localStrings', 'twoLocals', 'innerFresh']
+        extra_probe = ', localStrings("ab"), twoLocals("p"), innerFresh("q")'
     elif ctx == 'same-base-two-imports':
         imp += '\thtemplate "html/template"\n\t"text/template"\n'
         extra_decl = ('func esc(s string) string {\n\tt := template.Must(template.New("t").Parse("{{.}}"))\n\tvar sb strings.Builder\n\tt.Execute(&sb, s)\n\treturn sb.String() + htemplate.HTMLEscapeString(s)\n}\n')
